@@ -17,7 +17,7 @@ case $pkg in
   fuzz|fuzz_test) dir=fuzz ;;
   *) echo "unknown demo package $pkg"; exit 2 ;;
 esac
-run_demo() { (cd $WT/$dir && cp $demo ./zz_demo_test.go && timeout 600 go test -count=1 -run 'TestC|Test.*[Dd]emo|TestM' . >/tmp/seed_demo.out 2>&1; rc=$?; rm -f ./zz_demo_test.go; return $rc); }
+run_demo() { (cd $WT/$dir && cp $demo ./zz_demo_test.go && timeout 600 go test -count=1 -run "${RUNPAT:-TestC|Test.*[Dd]emo|TestM}" . >/tmp/seed_demo.out 2>&1; rc=$?; rm -f ./zz_demo_test.go; return $rc); }
 git apply --check $SRC/patch.diff || { echo "$ID: patch does not apply"; exit 1; }
 run_demo; clean_rc=$?
 git apply $SRC/patch.diff
